@@ -632,6 +632,21 @@ func (in *inst) rewriteBody(body *ast.BlockStmt) {
 					in.noShared[u] = true
 				}
 			}
+			// methods of the typed atomics (atomic.Uint32 ...): the receiver variable is only
+			// ever accessed atomically, the access is recorded by the atomic wrapper itself
+			if se, ok := ce.Fun.(*ast.SelectorExpr); ok {
+				if sel, ok := in.info.Selections[se]; ok && sel.Kind() == types.MethodVal {
+					if fn, ok := sel.Obj().(*types.Func); ok && fn.Pkg() != nil && fn.Pkg().Path() == "sync/atomic" {
+						switch r := rootOf(se.X).(type) {
+						case *ast.Ident:
+							in.noShared[r] = true
+						case *ast.SelectorExpr:
+							in.noShared[r.Sel] = true
+							in.noShared[r] = true
+						}
+					}
+				}
+			}
 		}
 		return true
 	})
@@ -786,7 +801,7 @@ func (in *inst) rangeChan(r *ast.RangeStmt) ast.Stmt {
 	}
 	first = append(first, &ast.IfStmt{Cond: &ast.UnaryExpr{Op: token.NOT, X: ok}, Body: &ast.BlockStmt{List: []ast.Stmt{&ast.BranchStmt{Tok: token.BREAK}}}})
 	// keep the user's body in its own block so that redeclarations of the key stay legal
-	body := &ast.BlockStmt{List: append(first, r.Body.List...)}
+	body := &ast.BlockStmt{List: append(first, &ast.BlockStmt{List: r.Body.List})}
 	return &ast.ForStmt{
 		Init: &ast.AssignStmt{Lhs: []ast.Expr{ct}, Tok: token.DEFINE, Rhs: []ast.Expr{r.X}},
 		Body: body,
